@@ -157,7 +157,6 @@ func VH_C15_step(k int, bs int, op int) {
 			vassert(err != nil && batch == nil, "cancelled-get-returns-the-context-error")
 			vhSameFresh(c, marks, vhFreshOf(cmds, marks), "cancelled-get-loses-no-fresh-command")
 		} else {
-			vcover("cancelled-get-took-the-token")
 			vassert(token && vhFreshCount(cmds, marks) >= bs, "cancelled-get-hands-out-a-batch-only-when-one-is-ready")
 			vassert(len(batch.Commands) == bs, "batch-is-full-sized")
 			j := 0
@@ -177,5 +176,10 @@ func VH_C15_step(k int, bs int, op int) {
 	}
 	// the wake-up invariant is preserved (also by a Get that gave up)
 	vassert(vhFreshCount(cmds, marks) < bs || vhHasToken(c), "wake-up-invariant-preserved")
-	vobserve("cache", uint64(len(c.cache)))
+	if op != 3 {
+		// not observed for the cancelled Get: natively its select picks at random between the
+		// token and ctx.Done, so the cache length afterwards is not a function of the inputs
+		// (translator validation compares observations of native runs)
+		vobserve("cache", uint64(len(c.cache)))
+	}
 }
